@@ -87,6 +87,49 @@ def _k17_one(ctx, pid, p, mgr, mod_cls, vec_cls, fi):
 # K18  _annotate_assembly
 
 
+def annotate_summary(ctx) -> dict:
+    """What _annotate_assembly does to the annotations the product already
+    carries (K16 composes the phases of assemble() with it): kept and updated
+    key by key, or replaced / emptied wholesale."""
+    cached = getattr(ctx, "_annotate_summary", None)
+    if cached is not None:
+        return cached
+    p, mgr, mod_cls, vec_cls = _mgr_world(ctx)
+    fi = p.get_func("moclo.core._assembly.AssemblyManager._annotate_assembly")
+
+    def make_args(I):
+        V = _entity(vec_cls, "V")
+        mods = ACollection("modules", lambda: _entity(mod_cls, "m"))
+        prod = ARec(True, [Piece("PRODUCT", ZERO, Aff.sym("len:product"))], Term("product"))
+        I.prod = prod
+        from .kernels2 import build_manager
+        obj = build_manager(I, mgr, V, mods, id_=Term("ID"), name=Term("NAME"))
+        obj.attrs["modules"] = mods
+        obj.attrs["__open__"] = True
+        return (obj, prod), {}
+
+    summary = {"replaces_annotations": False, "drops_references": False, "where": fi.where()}
+
+    def post(I, o):
+        ann_t = Term("annotations", Term("product"))
+        if "annotations" in I.prod.attrs and I.prod.attrs["annotations"] != ann_t:
+            summary["replaces_annotations"] = True
+        for e in o.path.effects:
+            if e[0] == "mutate" and isinstance(e[1], Term) and e[1] == ann_t and e[2] in ("clear",):
+                summary["replaces_annotations"] = True
+            if e[0] == "mutate" and isinstance(e[1], Term) and e[1] == ann_t and e[2] in ("pop",) and e[3] and e[3][0] == "references":
+                summary["drops_references"] = True
+            if e[0] == "setitem" and isinstance(e[1], Term) and e[1] == ann_t and e[2] == "references":
+                summary["drops_references"] = True
+            if e[0] == "delitem" and isinstance(e[1], Term) and e[1] == ann_t:
+                summary["drops_references"] = True
+        return []
+
+    run_paths(ctx, fi, make_args, [], hooks=_entity_hooks(p), post=post)
+    ctx._annotate_summary = summary
+    return summary
+
+
 def k18_annotate(ctx, pid: str):
     p, mgr, mod_cls, vec_cls = _mgr_world(ctx)
     fi = p.get_func("moclo.core._assembly.AssemblyManager._annotate_assembly")
@@ -115,6 +158,11 @@ def k18_annotate(ctx, pid: str):
         for e in o.path.effects:
             if e[0] == "setitem" and isinstance(e[1], Term) and e[1] == Term("annotations", Term("product")):
                 ants[e[2]] = e[3]
+            if e[0] == "mutate" and isinstance(e[1], Term) and e[1] == Term("annotations", Term("product")) and e[2] == "update":
+                for a in e[3]:
+                    if not isinstance(a, dict):
+                        raise AnalysisError("%s: annotations.update(%r) is not followed" % (fi.where(), a))
+                    ants.update(a)
         if isinstance(prod.attrs.get("annotations"), dict):
             ants.update(prod.attrs["annotations"])
         out.append(("K18.topology", name, ants.get("topology") == "circular", "the product must be declared circular, topology=%r" % (ants.get("topology"),)))
@@ -264,8 +312,15 @@ def ctor_rule(ctx, rule: str):
                 for f in ("dbxrefs", "features", "letter_annotations"):
                     got = kw.get(f)
                     ok = isinstance(got, Term) and got.op == "deepcopy" and repr(got.args[0]) == repr(Term("src:" + f))
-                    out.append((rule + ".deepcopy", "%s#%s" % (name, f), ok,
-                                "wrapping an existing record must deep-copy its %s so that edits of the copy do not reach the original, got %r" % (f, got)))
+                    detail = "wrapping an existing record must deep-copy its %s so that edits of the copy do not reach the original, got %r" % (f, got)
+                    if not ok and f == "features" and isinstance(got, AList) and got.generic and len(got.items) == 1 \
+                            and isinstance(got.items[0], AStruct) and got.items[0].kind == "SeqFeature":
+                        # a hand-written per-feature clone: faithful only if each field is an independent copy of the same shape
+                        verdict, why = _clone_verdict(got.items[0])
+                        if verdict is None:
+                            raise AnalysisError("%s: the features of a wrapped record are cloned by hand (%s): faithfulness of that clone is not decided" % (fi.where(), why))
+                        ok, detail = verdict, "the features of a wrapped record are cloned by hand and %s" % why
+                    out.append((rule + ".deepcopy", "%s#%s" % (name, f), ok, detail))
                 got = kw.get("annotations")
                 out.append((rule + ".deepcopy", "%s#annotations" % name, isinstance(got, DCDict) and dict(got) == dict(src.attrs["annotations"]) and got is not src.attrs["annotations"],
                             "wrapping an existing record must deep-copy its annotations, got %r (%s)" % (got, type(got).__name__)))
@@ -276,8 +331,24 @@ def ctor_rule(ctx, rule: str):
     ctx.report.floor(rule + ".deepcopy", 16)
 
 
+def _clone_verdict(feat: AStruct):
+    """(True, why) faithful / (False, why) provably unfaithful / (None, why) undecided, for one cloned feature"""
+    loc = feat.fields.get("location")
+    if isinstance(loc, AStruct) and loc.kind == "FeatureLocation":
+        srcs = {repr(v) for k, v in loc.fields.items() if k in ("start", "end")}
+        if any("location(" in s_ for s_ in srcs):
+            return False, ("every location is rebuilt as one FeatureLocation(start, end, strand) of the source location: a CompoundLocation "
+                           "(join) is flattened to its overall span, so the copy's features no longer denote the same nucleotides")
+    def copied(v, field):
+        return isinstance(v, Term) and v.op == "deepcopy" and ("%s(" % field) in repr(v)
+    if copied(loc, "location") and copied(feat.fields.get("qualifiers"), "qualifiers"):
+        return True, "location and qualifiers are deep copies"
+    return None, "location=%r qualifiers=%r" % (loc, feat.fields.get("qualifiers"))
+
+
 def getitem_rule(ctx, rule: str):
     p = ctx.program
+    ctx.established.add("getitem")
     fi = p.get_func("moclo.record.CircularRecord.__getitem__")
     FIELDS = ["seq", "id", "name", "description", "dbxrefs", "features", "annotations", "letter_annotations"]
     A, B = Aff.sym("x"), Aff.sym("y")
@@ -306,11 +377,13 @@ def getitem_rule(ctx, rule: str):
                 return isinstance(args[0], AStruct) and args[0].kind == "slice"
         return NotImplemented
 
-    for kind in ("slice", "index"):
+    # the receiver's topology is whatever spelling the constructor accepted ("circular" in any letter case)
+    for kind in ("slice", "slice-anycase", "index"):
         def make_args(I, kind=kind):
             rec = circ_record()
-            rec.attrs["annotations"] = {"topology": "circular", "molecule_type": Term("mt")}
-            idx = AStruct("slice", lo=A, hi=B) if kind == "slice" else Aff.sym("idx")
+            rec.attrs["annotations"] = {"topology": Term("circular-in-any-case") if kind == "slice-anycase" else "circular",
+                                        "molecule_type": Term("mt")}
+            idx = AStruct("slice", lo=A, hi=B) if kind.startswith("slice") else Aff.sym("idx")
             return (rec, idx), {}
 
         def post(I, o, kind=kind):
@@ -377,6 +450,7 @@ def add_guard_rule(ctx, rule: str):
     function all of whose paths raise TypeError (no __iadd__ escapes it)."""
     p = ctx.program
     r = ctx.report
+    ctx.established.add("add-guard")
     ci = p.get_class("moclo.record.CircularRecord")
     for name in ("__add__", "__radd__"):
         owner, raw = p.class_attr_def(ci, name)
@@ -438,7 +512,7 @@ def transcription_rule(ctx, rule: str):
                     flags |= a
                 else:
                     fr.unsupported(node, "re.compile flags %r" % (a,))
-            if not isinstance(args[0], str):
+            if not isinstance(args[0], (str, Term)):
                 fr.unsupported(node, "re.compile of a non-constant pattern %r" % (args[0],))
             return AStruct("regex", pattern=args[0], flags=flags)
         return NotImplemented
@@ -453,6 +527,8 @@ def transcription_rule(ctx, rule: str):
             rx = I.obj.attrs.get("regex")
             if o.kind != "return" or not (isinstance(rx, AStruct) and rx.kind == "regex"):
                 return [(rule + ".compile", "%s#%s" % (fi.qualname, code), False, "DNARegex(%r) does not compile a constant pattern: %r" % (code, o))]
+            if not isinstance(rx.fields["pattern"], str):
+                return [(rule + ".compile", "%s#%s" % (fi.qualname, code), False, "DNARegex(%r) compiles a non-constant pattern: %r" % (code, rx.fields["pattern"]))]
             compiled[code] = (rx.fields["pattern"], rx.fields.get("flags", 0))
             return []
 
@@ -480,10 +556,81 @@ def transcription_rule(ctx, rule: str):
                  "pattern letter %s matches target letter %s but not %s (or the reverse): the spelling of a record changes whether it is accepted; transcribed as %r flags=%s"
                  % (code, letter if up else letter.lower(), letter.lower() if up else letter, pat, flags), fi.where())
     r.floor(rule + ".iupac", 15 * 8)
+    letterwise_rule(ctx, rule, lib_hook)
     extra = set("ACGTN")
     note = [c for c in sorted(table) if compiled.get(c) and re.compile(*compiled[c]).fullmatch("N") and c not in ("N",)]
     if note:
         r.note("codes also matching the letter N in a target: %s" % note)
+
+
+def letterwise_rule(ctx, rule: str, lib_hook):
+    """The per-letter obligations above decide every pattern only if the
+    transcription is a letter-wise map: evaluated on a pattern of arbitrary
+    letters, what reaches re.compile is a constant prefix followed, for each
+    pattern letter x in order, by table.get(x, x) -- and each table value is a
+    single regex atom without a capturing group, so that a quantifier or group
+    written after a code applies to the code's class and group numbers are the
+    pattern's own."""
+    from .absint import AJoin, AList
+
+    p = ctx.program
+    r = ctx.report
+    cls = p.get_class("moclo.regex.DNARegex")
+    fi = p.get_func("moclo.regex.DNARegex.__init__")
+    lm = ast.literal_eval(cls.attrs["_lettermap"])
+    keys = ",".join(sorted(lm))
+    X = Term("letter")
+
+    def make_args(I):
+        pat = AList([X], 0, origin="pattern")
+        pat.generic, pat.min_len = True, 0
+        obj = AObj(cls, {}, name="rx")
+        I.obj = obj
+        return (obj, pat), {}
+
+    def post(I, o):
+        name = fi.qualname
+        rx = I.obj.attrs.get("regex")
+        if o.kind != "return" or not (isinstance(rx, AStruct) and rx.kind == "regex"):
+            return [(rule + ".letterwise", name, False, "DNARegex(<any pattern>) ends with %r without compiling" % (o,))]
+        v = rx.fields["pattern"]
+        prefix = ""
+        while isinstance(v, tuple) and v and v[0] == "concat":  # prefix + join(...)
+            prefix, v = prefix + v[1], v[2]
+        if not (isinstance(v, AJoin) and v.sep == "" and isinstance(v.alist, AList) and v.alist.generic):
+            raise AnalysisError("%s: the compiled pattern is not recognised as a join over the pattern's letters: %r" % (fi.where(), v))
+        L = v.alist
+        once, rep = L.items[:L.generic_from], L.items[L.generic_from:]
+        if not all(isinstance(x, str) for x in once) or len(rep) != 1:
+            raise AnalysisError("%s: unrecognised list shape in the transcription: %r" % (fi.where(), L))
+        prefix += "".join(once)
+        img = rep[0]
+        table = Term("table", Term(keys))
+        UX = Term("upper", X)
+        ok_img = img in (Term("table-get", table, X, X), Term("table-value", table, X), X,
+                         Term("table-get", table, UX, X), Term("table-value", table, UX))
+        out = [(rule + ".letterwise", name, ok_img,
+                "each pattern letter x must be transcribed as lettermap.get(x, x) on its own, in order: the per-letter image is %r" % (img,))]
+        try:
+            tree = list(re._parser.parse(prefix))
+        except Exception as e:
+            tree = [("error", str(e))]
+        out.append((rule + ".letterwise", name + "#prefix", not tree,
+                    "the constant prefix must consist of inline flags only (no pattern item): %r" % (prefix,)))
+        return out
+
+    emit(ctx, run_paths(ctx, fi, make_args, [], hooks={"lib_call": lib_hook}, post=post), fi.where(), "any-pattern:")
+    for code, val in sorted(lm.items()):
+        try:
+            items = list(re._parser.parse(val))
+        except Exception as e:
+            items = None
+        ok = items is not None and len(items) == 1 and str(items[0][0]) in ("IN", "LITERAL", "ANY", "NOT_LITERAL")
+        r.ob(rule + ".atom", "DNARegex._lettermap#%s" % code, ok,
+             "the transcription %r of %s must be one regex atom (a character class) with no capturing group: a quantifier after the code "
+             "would otherwise bind to part of it, or group numbers shift" % (val, code), cls.where())
+    r.floor(rule + ".letterwise", 2)
+    r.floor(rule + ".atom", 11)
 
 
 def emit_quiet(ctx, outs, where):
